@@ -1,5 +1,5 @@
 (* C08 — clock time is arithmetic modulo 24 h with one canonical value per time of day. *)
-From Astro Require Import Base DateModel TimeModel ApiModel InstantSpec TimeProofs ClockProofs.
+From Astro Require Import Base Text DateModel TimeModel ApiModel InstantSpec TimeProofs ClockProofs FormatModel ParseModel TextProofs.
 
 (* every Time obtainable through any history of public operations lies inside the day
    (fold over the operation list; op_wf only records what the argument types guarantee) *)
@@ -42,6 +42,12 @@ Theorem C08_from_nanos : forall n, 0 <= n ->
   (n < D -> time_from_nanos n = Ok (mkTM n 0)) /\ (D <= n -> time_from_nanos n = Err (EOor NNanoseconds 0 (D - 1) n)).
 Proof. exact c08_from_nanos. Qed.
 
+(* "every Time obtainable through the public API": the two text entry points as well — whatever the input and the
+   pattern, an Ok of Time::parse / Time::from_str is a time of day inside the day with an offset inside +-24 h *)
+Theorem C08_from_text : forall s fmt,
+  (forall t, time_parse s fmt = Ok t -> Inv_tm t) /\ (forall t, time_from_str s = Ok t -> Inv_tm t).
+Proof. intros s fmt. exact (conj (time_parse_valid s fmt) (time_parse_valid s P_TIME)). Qed.
+
 Example C08_nonvacuous :
   Forall op_wf [TFromHms 23 59 59; TAdd UHour 4294967295; TSubTime 86399999999999 3600; TSet FHour 25; TAsOffset (-86399)].
 Proof. repeat constructor; cbn; unfold D, NANOS_PER_DAY; lia. Qed.
@@ -57,3 +63,4 @@ Print Assumptions C08_sub_dur.
 Print Assumptions C08_from_hms.
 Print Assumptions C08_from_seconds.
 Print Assumptions C08_from_nanos.
+Print Assumptions C08_from_text.
